@@ -5,7 +5,7 @@ import spfgen as G
 ID = 'C11'
 COQ_TARGETS = ['Props/Properties_C11.vo']
 PROPS_FILES = ['Props/Properties_C11.v']
-THEOREMS = ['C11_check_host', 'C11_check_host_c', 'C11_limit_is_rfc', 'C11_rfc_constants', 'C11_bad_token_clean', 'C11_exp_text_clean', 'C11_received_spf_clean']
+THEOREMS = ['C11_check_host', 'C11_check_host_c', 'C11_limit_is_rfc', 'C11_rfc_constants', 'C11_bad_token_clean', 'C11_exp_text_clean', 'C11_received_spf_clean', 'C11_rfc_agreement_refuted', 'C11_rfc_deviation_witnesses']
 ENGINES = [dict(name='spf', c_sources=['spf_h.c'], extract='Extract/Extract_spf.v', driver='spf_driver.ml',
                 glue=('glue.ml', 'glue_z.ml'), accepts=lambda c: c.startswith('c1 '))]
 RULE = ('cases = (sender domain, client address v4/v6, sender, HELO, reverse name, zone); zone = TXT/A/AAAA/MX/PTR answers or injected errors per name '
@@ -48,7 +48,59 @@ def gen_cases(engine, rng, tier):
         out.append(G.gen_macro_case(rng))
     for i in range(500 * k):
         out.append(G.gen_sanitise_case(rng))
+    for i in range(1500 * k):
+        out.append(G.gen_rfc_case(rng))
     return out
+
+# ---- known deviations from RFC 7208 (results differ from Spec/SpfRfc.v); each predicate looks at the zone of the case only
+import re as _re
+
+def _zone(case):
+    g = G.parse_case(case)
+    txts, zone = {}, g[8:]
+    for z in zone:
+        if z[:1] == b'T':
+            name, _, rest = z[1:].partition(b'\0')
+            recs = rest.split(b'\0')
+            if rest.endswith(b'\0'): recs = recs[:-1]
+            txts.setdefault(name, recs)
+    return g, zone, txts
+
+def classify(case, c_out):
+    if not c_out.startswith('Q'):
+        return None                       # a crash is never a known class
+    try:
+        g, zone, txts = _zone(case)
+    except Exception:
+        return None
+    client = g[2]
+    low = [r.lower() for v in txts.values() for r in v]
+    # F-C11-11: redirect= to a name without SPF record gives fail, RFC 7208 6.1 says permerror
+    for r in low:
+        for m in _re.finditer(rb'(?:^| )redirect=([^ /]+)', r):
+            if not any(x.startswith(b'v=spf1') for x in txts.get(m.group(1), [])):
+                return 'redirect-no-record'
+    # F-C11-2: ip4:/ip6: with a prefix length below 8 is a permerror
+    if any(_re.search(rb'ip[46]:[^ /]*/0*[0-7]( |$)', r) for r in low):
+        return 'ip-prefix-below-8'
+    # F-C11-13: "ip6:::" (the unspecified address, 2 characters) is a permerror
+    if any(_re.search(rb'ip6:::( |/|$)', r) for r in low):
+        return 'ip6-unspecified'
+    # F-C11-10: 10 or more MX hosts give fail (RFC: more than 10 give permerror, 10 are evaluated)
+    for z in zone:
+        if z[:1] == b'M':
+            name, _, pl = z[1:].partition(b'\0')
+            n = o = 0
+            while o + 5 <= len(pl):
+                c = pl[o + 4]; o += 5
+                if c == 0 or o + 16 * c > len(pl): break
+                n += 1; o += 16 * c
+            if n >= 10:
+                return 'mx-hosts-10'
+    # F-C11-12: a DNS error of the PTR lookup ends the evaluation (temperror / permerror), RFC 7208 5.5 says no match
+    if any(z[:1] == b'n' and z[1:17] == client for z in zone) and any(_re.search(rb'(^| )[-+?~]?ptr', r) for r in low):
+        return 'ptr-dns-error'
+    return None
 
 def _obs(c_out):
     w = c_out.split()
@@ -74,6 +126,8 @@ def distribution(results):
             d[b] = d.get(b, 0) + 1
             if 'ENULL' not in w: d['spfexp_set'] = d.get('spfexp_set', 0) + 1
         if r['spec'] == 'pre': d['outside_precondition'] = d.get('outside_precondition', 0) + 1
+        if r['spec'] == 'okrfc': d['compared_with_rfc_reference_and_equal'] = d.get('compared_with_rfc_reference_and_equal', 0) + 1
+        if r['spec'] == 'bad': d['known_deviation_from_rfc'] = d.get('known_deviation_from_rfc', 0) + 1
     return d
 
 LEVEL_TEXT = ('Machine-checked Coq theorems over an executable model of check_host()/spflookup() (qsmtpd/spf.c with fixes/C11-*.diff), for EVERY resolver behaviour '
